@@ -332,14 +332,22 @@ func (en *DefaultEngine) runFirst(ctx context.Context) (bool, error) {
 		return true, nil
 	}
 	logg.DebugCtxf(ctx, "start pre-VM check")
+	depth := en.st.Depth()
+	levels := en.ca.Levels()
 	en.ca.Push()
 	rs := resource.NewMenuResource()
 	rs.AddLocalFunc("_first", en.first)
 	idx := en.st.SizeIdx
 	en.st.Down("_first")
-	defer en.ca.Pop()
 	defer func() {
-		en.st.Up()
+		// leave the pre-VM level and whatever its run entered on top of it (a failing
+		// first function sends that run towards the catch node)
+		for en.st.Depth() > depth {
+			en.st.Up()
+		}
+		for en.ca.Levels() > levels {
+			en.ca.Pop()
+		}
 		// the pre-VM level is entered and left from wherever the session is: keep its page index
 		en.st.SizeIdx = idx
 	}()
